@@ -128,6 +128,24 @@ def corpus():
                          ["call", 4, "join>on_field", [_r(7)], {}, [_s("a")], {}],
                          ["call", 4, "join>cross", [_r(1)], {}, [], {}], ["call", 4, "join>on", [_r(1)], {}, [_crit("b", 1)], {}]],
                "theme": "corpus", "twin": False, "repeats": []})
+    # a criterion object kept by the user and used inside a statement, then negated (negate is a chaining call)
+    for kind in ("ContainsCriterion", "ExistsCriterion"):
+        cs.append({"steps": [["new", kind], ["new", "QueryBuilder"], _call(1, "from_", _s("t1")), _call(2, "select", _s("a")),
+                             _call(3, "where", _r(0)), _call(0, "negate"), _call(0, "negate"), _call(5, "negate")],
+                   "theme": "corpus", "twin": False, "repeats": []})
+    # FOR UPDATE OF lists, branching (MySQL and PostgreSQL keep them in a list)
+    for kind in ("PostgreSQLQueryBuilder", "MySQLQueryBuilder"):
+        of = lambda *n: {"k": "tuple", "v": [_s(x) for x in n]}
+        cs.append({"steps": [["new", kind], _call(0, "from_", _s("t1")), _call(1, "select", _s("a")),
+                             ["call", 2, "for_update", [], {"of": of("t1")}], ["call", 2, "for_update", [], {"of": of("t2", "t3")}],
+                             ["call", 3, "for_update", [], {"of": of("t3")}], ["call", 3, "for_update", [], {"nowait": {"k": "bool", "v": True}, "of": of("t1", "t2")}]],
+                   "theme": "corpus", "twin": False, "repeats": []})
+    # replace_table on a statement with a WITH clause whose query mentions the replaced table (and on a sibling)
+    cs.append({"steps": [["new", "Table:t1"], ["new", "Table:t2"], ["new", "Table:t3"],
+                         ["new", "QueryBuilder"], _call(3, "from_", _r(0)), _call(4, "select", {"k": "field", "n": "a", "t": _r(0)}),   # 5 = cte body
+                         ["new", "QueryBuilder"], _call(6, "from_", _r(1)), _call(7, "select", _s("x")), _call(8, "with_", _r(5), _s("w")),  # 9
+                         _call(9, "replace_table", _r(0), _r(2)), _call(9, "where", _crit("x", 1)), _call(9, "replace_table", _r(0), _r(1)),
+                         _call(10, "replace_table", _r(2), _r(1))], "theme": "corpus", "twin": False, "repeats": []})
     # argument objects shared between statements (round-3 red team): nothing is written at HEAD in these circumstances
     #  - a sub-query that already carries its automatic name (FROM of another statement) joined into a statement whose own
     #    FROM sub-query has the same automatic name
@@ -350,7 +368,7 @@ def to_coq(case, outcome):
         return None             # constructor-option probe: oracle only
     cs = []
     for rec in outcome["steps"]:
-        if rec["kind"] == "skip":
+        if rec["kind"] in ("skip", "untabled"):
             continue
         if rec["kind"] == "new":
             st = "(SNew %s %s)" % (S(rec["cls"]), L([P(S(a), _cell(c, it)) for a, c, it in rec["attrs"]]))
@@ -379,6 +397,12 @@ def oracle(case, outcome):
             out.append({"signature": ["C01", "%s.%s" % (rec["pyclass"], rec["entry"]), "mutable-mode", "option-dropped"],
                         "what": "step %d: %s constructed with immutable=False holds immutable=%s"
                                 % (k, rec["factory"], rec["observed"].get("immutable"))})
+        if rec["kind"] == "untabled":
+            for ch in rec["changes"]:
+                out.append({"signature": ["C01", rec["qualname"], ch["role"], ch["what"]],
+                            "what": "step %d: %s(...) (no @builder row in this tree) on object %d changed the %s of live object %s (%s): %s -> %s"
+                                    % (k, rec["qualname"], rec["recv"], ch["what"], ch["obj"], ch["cls"], ch["before"], ch["after"])})
+            continue
         if rec["kind"] != "call":
             continue
         akinds = [ch.get("akind", "alias") for ch in rec["changes"] if ch["what"] == "alias"]
